@@ -15,8 +15,10 @@
   on disjoint quantum registers commute; §2b discharges that hypothesis for the verified stabilizer semantics (C07's group
   transformers, outcomes attached to the measuring operations) and §2c ties that semantics to the compile loop `stabRun`,
   so that "rewrites preserve the compiled state / compile does not depend on the topological order" is a theorem about
-  the tableaux the stabilizer backend produces, with no physical assumption.  (The density-matrix backend is compared
-  with it branch by branch by the correspondence run.)
+  the tableaux the stabilizer backend produces, with no physical assumption.  §2d: gate-only circuits — literally the
+  same tableau; §2e: the classical record; §2e′: the probability of the outcome assignment; §2f: the conclusions as
+  equalities of density matrices.  (The density-matrix backend is compared with the stabilizer backend branch by branch
+  by the correspondence run.)
   Second half (aliasing): *partial by nature* — see §3.
 -/
 import GraphiqModel.Proofs.Wire
